@@ -222,7 +222,7 @@ func ruleZ2(c *Ctx) {
 	bad := "the close notification does not call a handler of the stub"
 	for _, ci := range calls(fn) {
 		g := m.callee(ci.Common())
-		if g == nil || recvNamed(g) == nil || recvNamed(g).Obj().Name() != "stub" {
+		if g == nil || recvNamed(g) == nil || tname(recvNamed(g).Obj()) != "stub" {
 			continue
 		}
 		// g is the handler (connClosed); does it receive a session-local value?
@@ -322,7 +322,7 @@ func deferredResets(m *Module, f *ssa.Function) map[string]*ssa.Defer {
 					if !ok {
 						continue
 					}
-					if n := ptrNamed(fa.X.Type()); n == nil || n.Obj().Name() != "stub" {
+					if n := ptrNamed(fa.X.Type()); n == nil || tname(n.Obj()) != "stub" {
 						continue
 					}
 					// under retErr != nil
@@ -594,9 +594,9 @@ func ruleZ5(c *Ctx) {
 			bad = "the already-started branch does not return an error"
 		}
 		for i := 0; i < m.structOf(pkgStub, "stub").NumFields(); i++ {
-			for _, fs := range m.fieldStores(st, stT, m.structOf(pkgStub, "stub").Field(i).Name()) {
+			for _, fs := range m.fieldStores(st, stT, fname(m.structOf(pkgStub, "stub").Field(i))) {
 				if !test.Block().Dominates(fs.Store.Block()) || fs.Store.Block() == test.Block() {
-					bad = fmt.Sprintf("stub.%s is written before the already-started test", m.structOf(pkgStub, "stub").Field(i).Name())
+					bad = fmt.Sprintf("stub.%s is written before the already-started test", fname(m.structOf(pkgStub, "stub").Field(i)))
 				}
 			}
 		}
